@@ -3,9 +3,12 @@ import QmcModel.Basic
 import QmcModel.Rand
 import QmcModel.BondContainer
 import QmcModel.Rvb
+import QmcModel.RvbRegion
 open Qmc Qmc.Proto Qmc.Rvb
 
-/-! Driver for C03: pure helpers + `BondContainer` (mode `helpers`), RVB updates (mode `rvb`). -/
+/-! Driver for C03: pure helpers + `BondContainer` (mode `helpers`), RVB updates (mode `rvb`:
+kind `rvb` = acceptance / move / balance for the traced region, kind `region` = the exact proposal
+model `proposeRegion` replayed on the recorded draws). -/
 
 def showKeys (ks : List (Nat × Rat)) : String :=
   showList (fun kw => s!"{kw.1}:{showRat kw.2}") ks
@@ -53,15 +56,7 @@ def parseEdges (s : String) : List (Nat × Nat × Rat) :=
     | [a, b, j] => some (parseNat a, parseNat b, parseRat j)
     | _ => none
 
-def mkMask (nv : Nat) (subvars : List Nat) (start : List Bool) : List Bool :=
-  (subvars.zip start).foldl (fun m vb => m.set vb.1 vb.2) (List.replicate nv false)
-
-/-- positions of the constant operators on variable `v`, in slot order (`constant_ops_on_var`) -/
-def constPs (slots : Slots) (v : Nat) : List Nat :=
-  ((List.range slots.length).zip slots).filterMap fun (p, o) =>
-    match o with
-    | some op => if op.const && op.vars.contains v then some p else none
-    | none => none
+def mkMask (nv : Nat) (subvars : List Nat) (start : List Bool) : List Bool := maskOf nv subvars start
 
 /-- membership mask just after slot `p0` (toggles at positions `≤ p0` applied) -/
 def maskAfter (slots : Slots) (R : Region) (p0 : Nat) : List Bool :=
@@ -142,8 +137,22 @@ def rvbStep (nv edges gamma h state slots subvars start toggles accepted log ast
         admissibleB P asg && admissibleB P2 asg2 &&
         decide (weight P asg * transProb P asg asg2 = weight P2 asg2 * transProb P2 asg2 asg)
     else decide (a = b) && (okB || broke)
+  -- what the proposal reads is untouched by the update (hypothesis and conclusion of `proposal_symmetric`)
+  let skelOk := edgeOpsNotConst E b.slots && decide (skeleton E a = skeleton E b)
   let verdict := if margin < 1 / 1000000000 then "?" else "ok"
-  s!"{showApprox pCode} {k} {showBool accOk} {showBool (startOk && growOk)} {moveTok} {p2Tok} {showBool (dbOk && codeOk)} {verdict}"
+  s!"{showApprox pCode} {k} {showBool accOk} {showBool (startOk && growOk)} {moveTok} {p2Tok} {showBool (dbOk && codeOk && skelOk)} {verdict}"
+
+/-- kind `region`: the exact proposal model on the recorded draws. Output: subvars, starting state,
+toggle positions, cluster cells as `v.p` (`v._` for an idle variable), number of words consumed
+before the accept draw, status. -/
+def regionStep (nv edges slots log : String) : String :=
+  let E : Ising := { nvars := parseNat nv, edges := parseEdges edges, gamma := 0, h := 0 }
+  let c : Config := { state := [], slots := parseSlots slots }
+  let (P, rs) := proposeRegionCfg E c (RS.ofScript (parseNats log))
+  let status :=
+    if rs.short then "SHORT" else if rs.panicked || P.panic then "PANIC"
+    else if rs.margin < 1 / 1000000000 then "?" else "ok"
+  s!"{showNats P.subvars} {showBits P.start} {showNats P.toggles} {rs.draws} {status}"
 
 def step (toks : List String) : String :=
   match toks with
@@ -160,6 +169,7 @@ def step (toks : List String) : String :=
   | ["bc", ops] => runBc (parseList id ops)
   | ["rvb", nv, edges, gamma, h, state, slots, subvars, start, toggles, accepted, log, astate, aslots] =>
     rvbStep nv edges gamma h state slots subvars start toggles accepted log astate aslots
+  | ["region", nv, edges, slots, log] => regionStep nv edges slots log
   | "sweepk" :: _ => "same"
   | _ => "bad-op"
 
